@@ -1436,6 +1436,9 @@ class HistoryStep:
             # an unparsable text has no tree: CAIT must answer [] (it looks at an empty module)
             empty = ref_of("")
             self.stree, self.senc, self.size = empty.stree, empty.senc, 1
+            # ... and there is nothing to ask the model about (the search still demands that nothing is returned)
+            self.compare_model = False
+            self.not_modelled = "unparsable-text-asked"
 
     def judge(self, raw):
         self.raw = raw
